@@ -6,7 +6,8 @@ import ScenicModel.Gen.VeneerGlobals
 /-! line protocol for the C14 models (see tools/props/c14.py for the token grammar)
 
   side                                   -> the decidable side conditions evaluated on the generated data
-  hist P o:<id>:<v,..> … sim:<a> ev … sim:<a> ev …   -> observations of a history of simulations
+  hist P o:<id>:<v,..> … sim:<a>:<d> ev … sim:<a>:<d> ev …   -> observations of a history of simulations
+      (a = Simulation.setup was reached, d = the simulator's destroy() raised)
   glob <sim|compile> op …                -> observations of a session of the veneer-globals model
 -/
 namespace Driver.C14
@@ -26,18 +27,20 @@ def parsePairs (s : String) : Option (List (Nat × Int)) :=
 /-- one token of a `hist` line -/
 inductive Tok
   | obj (o : Nat) (vals : List Int)       -- header: a scene object and its property values
-  | sim (agentsSet : Bool)
+  | sim (agentsSet destroyFails : Bool)
   | ev (e : Ev)
   | newObj (o : Nat) (vals : List Int)    -- an object created during the simulation
   | read
   | saved (s : Nat)
   | fix (o p : Nat) (v : Int)             -- between simulations: the harness repaired a scene object
+  | heal                                  -- the harness executed the statements of the `finally` block that were skipped
 
 def parseTok (t : String) : Option Tok :=
   match t.splitOn ":" with
   | ["o", o, vs] => do pure (.obj (← o.toNat?) (← parseInts vs))
   | ["n", o, vs] => do pure (.newObj (← o.toNat?) (← parseInts vs))
-  | ["sim", a] => some (.sim (a == "1"))
+  | ["sim", a] => some (.sim (a == "1") false)
+  | ["sim", a, d] => some (.sim (a == "1") (d == "1"))
   | ["c", o] => do pure (.ev (.create (← o.toNat?)))
   | ["w", o, p, v] => do pure (.ev (.write (← o.toNat?) (← p.toNat?) (← v.toInt?)))
   | ["v", s, o, ps] => do pure (.ev (.override (← s.toNat?) (← o.toNat?) (← parsePairs ps)))
@@ -45,6 +48,7 @@ def parseTok (t : String) : Option Tok :=
   | ["s", s] => do pure (.ev (.start (← s.toNat?)))
   | ["x", s] => do pure (.ev (.stop (← s.toNat?)))
   | ["f", o, p, v] => do pure (.fix (← o.toNat?) (← p.toNat?) (← v.toInt?))
+  | ["h"] => some .heal
   | ["r"] => some .read
   | ["k", s] => do pure (.saved (← s.toNat?))
   | _ => none
@@ -63,36 +67,45 @@ structure HState where
   w : World
   stale : Saved
   objs : List Nat                 -- all objects seen so far (for printing)
-  cur : Option (Bool × List Ev)   -- the simulation being read
+  cur : Option (Bool × Bool × List Ev)   -- the simulation being read: agentsSet, destroyFails, events
+  last : Option (World × Saved × Bool × List Ev)   -- the simulation just finished: state before it, agentsSet, events
   out : List String
 
 def finishSim (cfg : Cfg) (nprop : Nat) (h : HState) : HState :=
   match h.cur with
   | none => h
-  | some (a, evs) =>
-    let r := runSim cfg h.w h.stale a evs
+  | some (a, d, evs) =>
+    let r := runSimD cfg h.w h.stale a d evs
     let line := s!"e={b2s r.ended};o={showReads r.w.orig h.objs nprop};x={",".intercalate ((h.objs.filter r.w.proxied).map toString)};s={showSaved r.stale}"
-    { h with w := r.w, stale := r.stale, cur := none, out := h.out ++ [line] }
+    { h with w := r.w, stale := r.stale, cur := none, last := some (h.w, h.stale, a, evs), out := h.out ++ [line] }
 
 def histStep (cfg : Cfg) (nprop : Nat) (h : HState) : Tok → HState
   | .obj o vals => { h with w := setOrig h.w o vals, objs := h.objs ++ [o] }
-  | .sim a => { finishSim cfg nprop h with cur := some (a, []) }
+  | .sim a d => { finishSim cfg nprop h with cur := some (a, d, []) }
   | .ev e => match h.cur with
-      | some (a, evs) => { h with cur := some (a, evs ++ [e]) }
+      | some (a, d, evs) => { h with cur := some (a, d, evs ++ [e]) }
       | none => h
   | .newObj o vals => match h.cur with
-      | some (a, evs) => { h with w := setOrig h.w o vals, objs := h.objs ++ [o], cur := some (a, evs ++ [.create o]) }
+      | some (a, d, evs) =>
+          { h with w := setOrig h.w o vals, objs := h.objs ++ [o], cur := some (a, d, evs ++ [.create o]) }
       | none => h
   | .fix o p v =>
       let h := finishSim cfg nprop h
       { h with w := { h.w with orig := fun o' p' => if o' = o ∧ p' = p then v else h.w.orig o' p' } }
+  | .heal =>
+      let h := finishSim cfg nprop h
+      match h.last with
+      | some (w0, stale0, a, evs) =>
+          let r := runSim cfg w0 stale0 a evs
+          { h with w := r.w, stale := r.stale }
+      | none => h
   | .read => match h.cur with
-      | some (_, evs) =>
+      | some (_, _, evs) =>
           let st := run cfg (initSt h.w h.stale) evs
           { h with out := h.out ++ ["r=" ++ showReads st.w.read h.objs nprop] }
       | none => h
   | .saved s => match h.cur with
-      | some (_, evs) =>
+      | some (_, _, evs) =>
           let st := run cfg (initSt h.w h.stale) evs
           let sv := (st.frames.filter (fun f => f.id == s)).flatMap (·.saved)
           { h with out := h.out ++ ["k=" ++ showSaved sv] }
@@ -106,7 +119,7 @@ def handleHist (cfg : Cfg) (ws : List String) : String :=
   | np :: rest =>
     match np.toNat?, rest.mapM parseTok with
     | some nprop, some toks =>
-      let h := toks.foldl (histStep cfg nprop) { w := World.zero, stale := [], objs := [], cur := none, out := [] }
+      let h := toks.foldl (histStep cfg nprop) { w := World.zero, stale := [], objs := [], cur := none, last := none, out := [] }
       " ".intercalate (finishSim cfg nprop h).out
     | _, _ => "bad-hist"
   | [] => "bad-hist"
@@ -179,7 +192,7 @@ def handleSide : String :=
   let c := Scenic.Gen.simCfg
   let st := Scenic.Gen.simTables
   let ct := Scenic.Gen.compileTables
-  s!"order={b2s (safeOrder c.order)} clears={b2s c.stopClears} agents={b2s c.agentsEarly} merge={showMerge c.merge} " ++
+  s!"order={b2s (safeOrder c.order)} clears={b2s c.stopClears} agents={b2s c.agentsEarly} destroy={b2s c.destroyGuarded} merge={showMerge c.merge} " ++
   s!"steps={b2s (c.order.contains .disableProxies && c.order.contains .stopScenarios && c.order.contains .endSimulation)} " ++
   s!"simclose={b2s (wfClose st && wfCms st)} compclose={b2s (wfClose ct && wfCms ct)} " ++
   s!"simwrites={b2s (wfWrites st)} compwrites={b2s (wfWrites ct)} susp={b2s st.suspended.isEmpty} " ++
